@@ -81,6 +81,31 @@ Fixpoint set_inits (l : list param) (inits : list (id * xnum)) : option (list pa
       end
   end.
 
+(* Parameters.set_fix(fix): `p.replace(fix=fix[p.name])` for the named parameters, in order (replace re-validates through
+   create, so it raises for a parameter that was built unchecked with an init outside its bounds) *)
+Fixpoint alookup_b (m : list (id * bool)) (n : id) : option bool :=
+  match m with
+  | [] => None
+  | (k, v) :: tl => if Pos.eqb k n then Some v else alookup_b tl n
+  end.
+Fixpoint set_fix (l : list param) (fx : list (id * bool)) : option (list param) :=
+  match l with
+  | [] => Some []
+  | p :: tl =>
+      match (match alookup_b fx (p_name p) with
+             | Some b => param_replace p None None None None (Some b)
+             | None => Some p end) with
+      | None => None
+      | Some q => match set_fix tl fx with None => None | Some r => Some (q :: r) end
+      end
+  end.
+(* what set_fix is meant to compute: only the fix flags change *)
+Definition with_fix (fx : list (id * bool)) (p : param) : param :=
+  match alookup_b fx (p_name p) with
+  | Some b => mkparam (p_name p) (p_init p) (p_lower p) (p_upper p) b
+  | None => p
+  end.
+
 (* ---- unique names ------------------------------------------------------------------------------- *)
 (* the loop `for p in parameters: if p.name in names: raise; names.add(p.name)` *)
 Fixpoint first_dup (seen : list id) (l : list id) : option id :=
